@@ -441,7 +441,12 @@ class Tracer:
         return self.kernel, res, self.events
 
 
-ROUND_TOL = 1e-11      # relative; rounding accumulations measured here are < 1e-13, one-copy changes > 1e-9
+# Relative output tolerance used ONLY to classify a pair that is not bit-identical but takes the same discrete
+# decisions (HamTwinTrace with Strict = FALSE accepts it).  Measured on scratch trees: re-associating one sum in
+# the `_ham` step kernels (harmless) moves outputs by <= 3.3e-11 (error estimates amplify 1e-16 into 1e-8 on the
+# step sizes); changing the controller exponent in the `_ham` copies only (genuine) moves them by >= 1.9e-7 in
+# the one configuration where the discrete sequence survives, and changes the discrete sequence in 7 of 8.
+ROUND_TOL = 5e-9
 
 
 def _reldiff(a, b):
@@ -455,16 +460,6 @@ def _reldiff(a, b):
         d = np.abs(a - b) / np.maximum(np.maximum(np.abs(a), np.abs(b)), 1e-3)
     d = np.where(np.isnan(d), np.inf, d)
     return float(np.max(d))
-
-
-def _events_close(ge, he):
-    """Same event kind and payloads equal up to ROUND_TOL (used only to classify a TLC rejection)."""
-    if ge is None or he is None or ge.get("e") != he.get("e") or ge.get("n") != he.get("n") or ge.get("c") != he.get("c") \
-            or ge.get("hit") != he.get("hit") or len(ge.get("x", ())) != len(he.get("x", ())):
-        return False
-    xa = np.array([ge.get(k, 0.0) for k in ("t", "h", "tn", "th")] + list(ge.get("x", ())), dtype=float)
-    xb = np.array([he.get(k, 0.0) for k in ("t", "h", "tn", "th")] + list(he.get("x", ())), dtype=float)
-    return _reldiff(xa, xb) <= ROUND_TOL
 
 
 def bits_equal(a, b):
@@ -612,18 +607,18 @@ def check_twins(ck: Check, bad: list, variants: list, twins: dict, rnd, rhs_eval
                     bad.append((f"dispatch|{v['family']}-{v['dir']}-{path}",
                                 f"{path} path of {v} ran kernel {outs[path]['kernel']}, the dispatch model says {rec['kernel'][path]}",
                                 dict(data, observed=outs[path]["kernel"])))
-            # compiled outputs: bit for bit on a consistent tree; a difference at rounding level (one copy re-associated
-            # a sum) is still "the same trajectory" and is recorded, anything above ROUND_TOL is a violation
+            # compiled outputs: bit for bit on a consistent tree.  A pair that is not bit-identical is classified after
+            # trace validation (same discrete decisions + outputs within ROUND_TOL = rounding-level agreement)
             diffs = [nm for nm in ("times", "states", "derivs") if not bits_equal(g["res"][nm], hm["res"][nm])]
-            if diffs:
-                md = max(_reldiff(g["res"][nm], hm["res"][nm]) for nm in diffs)
-                if md <= ROUND_TOL:
-                    rounding.append(md)
-                else:
+            dout = max([_reldiff(g["res"][nm], hm["res"][nm]) for nm in diffs], default=0.0)
+            if diffs and (dout > ROUND_TOL or v["dir"] == "directed"):
+                if dout > ROUND_TOL:
                     bad.append((f"{rec['kernel']['ham']}|differs-from-generic-path",
                                 f"{rec['kernel']['ham']} and {rec['kernel']['generic']} disagree on {diffs} for variant {v} "
-                                f"(max relative difference {md:.3e}; bit-identical on a consistent tree)",
-                                dict(data, observed={"differs": diffs, "max_rel_diff": md})))
+                                f"(max relative difference {dout:.3e}; bit-identical on a consistent tree)",
+                                dict(data, observed={"differs": diffs, "max_rel_diff": dout})))
+                else:
+                    rounding.append(dout)
             # traced runs -> TLC
             if v["dir"] == "directed":
                 gen_ev = [{"e": "start", "k": g["kernel"]}]
@@ -643,16 +638,23 @@ def check_twins(ck: Check, bad: list, variants: list, twins: dict, rnd, rhs_eval
                 n_hit += sum(1 for e in gen_ev if e["e"] == "refine")
             gr, hr, ex = rank_traces(gen_ev, ham_ev, {"t0": cfg["grid"][0], "tf": cfg["grid"][-1]})
             traces.append({"variant": v, "t0": ex["t0"], "tf": ex["tf"], "ngrid": len(cfg["grid"]), "gen": gr, "ham": hr})
-            meta.append((rec, cfg, data, gen_ev, ham_ev))
+            meta.append((rec, cfg, data, gen_ev, ham_ev, dout))
     ck.part("twins", pairs=len(traces), rejected_steps_seen=n_rej, events_located=n_hit, wall_s=round(time.time() - t_compile, 1))
 
-    # TLC decides acceptance of each pair by one behaviour of the driver
+    # TLC decides acceptance of each pair by one behaviour of the driver: strictly (bit for bit), and for the pairs
+    # rejected strictly, loosely (same discrete decisions)
     full = [i for i, t in enumerate(traces) if len(t["gen"]) > 1]
-    states, rej = validate_traces(TRACE, CFG / "HamTwinTrace.cfg", traces, timeout=1500)
+    states, rej = validate_traces(TRACE, CFG / "HamTwinTrace.Strict.cfg", traces, timeout=1500)
     ck.cov["traces_validated_against_impl"] += 2 * len(traces)
-    ck.part("trace_validation", twin_traces=len(traces), with_driver_events=len(full), states=states, rejected=len(rej))
+    loose = {}
+    if rej:
+        idx = sorted(rej)
+        _, lr = validate_traces(TRACE, CFG / "HamTwinTrace.Loose.cfg", [traces[i] for i in idx], timeout=1500)
+        loose = {idx[k]: val for k, val in lr.items()}
+    ck.part("trace_validation", twin_traces=len(traces), with_driver_events=len(full), states=states,
+            strict_rejected=len(rej), loose_rejected=len(loose))
     for i, (line, txt) in sorted(rej.items()):
-        rec, cfg, data, gen_ev, ham_ev = meta[i]
+        rec, cfg, data, gen_ev, ham_ev, dout = meta[i]
         v = rec["variant"]
         if isinstance(line, str):
             raise MachineryError(f"HamTwinTrace {line} on the traces of {v}:\n{txt[:1500]}")
@@ -660,29 +662,38 @@ def check_twins(ck: Check, bad: list, variants: list, twins: dict, rnd, rhs_eval
         ge = gen_ev[j] if j < len(gen_ev) else None
         he = ham_ev[j] if j < len(ham_ev) else None
         tg, th = traces[i]["gen"], traces[i]["ham"]
-        same = j < len(tg) and j < len(th) and (tg[j] == th[j] or tg[j].get("e") == "start")
-        if same and not (ge and ge["e"] == "start"):
-            raise MachineryError(f"HamTwinTrace rejected two identical traces of {v} at event {line} ({ge}): the driver "
-                                 f"model does not describe the code")
         if ge and ge["e"] == "start":
             bad.append((f"dispatch|{v['family']}-{v['dir']}",
                         f"kernels dispatched for {v}: generic {ge.get('k')}, ham {he.get('k') if he else None}; dispatch model "
                         f"says {rec['kernel']}", data))
             continue
+        if j < len(tg) and j < len(th) and tg[j] == th[j]:
+            raise MachineryError(f"HamTwinTrace rejected two identical traces of {v} at event {line} ({ge}): the driver "
+                                 f"model does not describe the code")
         kind = (ge or he or {}).get("e", "?")
         nm = (ge or he or {}).get("n", "")
-        if len(gen_ev) == len(ham_ev) and all(_events_close(a, b) for a, b in zip(gen_ev[1:], ham_ev[1:])):
-            rounding.append(max(_reldiff(np.array(a.get("x", [0.0]), dtype=float), np.array(b.get("x", [0.0]), dtype=float))
-                                for a, b in zip(gen_ev[1:], ham_ev[1:])))
-            ck.notes.append(f"traces of {rec['kernel']['generic']} / {rec['kernel']['ham']} differ at rounding level only "
-                            f"(first at event {line}, {kind} {nm}) for {v}")
+        if i in loose:
+            l2 = loose[i][0]
+            g2 = gen_ev[l2 - 1] if isinstance(l2, int) and l2 - 1 < len(gen_ev) else None
+            h2 = ham_ev[l2 - 1] if isinstance(l2, int) and l2 - 1 < len(ham_ev) else None
+            errs = [e["x"][0] for e in (g2, h2) if e and e["e"] in ("acc", "rej")]
+            if len(errs) == 2 and all(abs(x - 1.0) < 1e-6 for x in errs):
+                ck.notes.append(f"knife-edge accept/reject (err_norm within 1e-6 of 1) at event {l2} for {v}: not compared")
+                continue
+            bad.append((f"{rec['kernel']['ham']}|trace-diverges-from-generic-path",
+                        f"{rec['kernel']['generic']} and {rec['kernel']['ham']} take different decisions: traces first differ at "
+                        f"event {line} ({kind} {nm}) and the discrete sequences at event {l2} "
+                        f"(generic {str(g2)[:120]} / ham {str(h2)[:120]}) for variant {v}",
+                        dict(data, observed={"event": line, "discrete_event": l2, "generic": g2, "ham": h2})))
             continue
-        bad.append((f"{rec['kernel']['ham']}|trace-diverges-from-generic-path",
-                    f"traces of {rec['kernel']['generic']} and {rec['kernel']['ham']} first differ at event {line} "
-                    f"({kind} {nm}) for variant {v}: generic {str(ge)[:160]} / ham {str(he)[:160]}",
-                    dict(data, observed={"event": line, "generic": ge, "ham": he})))
+        # same discrete behaviour, not bit-identical: rounding-level unless the outputs moved
+        if dout > ROUND_TOL:
+            continue                    # already reported as differs-from-generic-path
+        rounding.append(dout)
+        ck.notes.append(f"{rec['kernel']['generic']} / {rec['kernel']['ham']} agree on every decision and to {dout:.1e} on the "
+                        f"outputs but not bit for bit (first at event {line}, {kind} {nm}) for {v}: rounding-level")
     ck.part("twins", rounding_level_pairs=len(rounding), max_rounding_level_diff=max(rounding, default=0.0),
-            rounding_tolerance=ROUND_TOL)
+            rounding_tolerance=ROUND_TOL, rounding_margin_measured="harmless <= 3.3e-11, genuine >= 1.9e-7")
 
     # binding self-test: corrupt the LAST event, drop an event, flip an accept
     cand = [i for i in full if i not in rej]
@@ -705,10 +716,14 @@ def check_twins(ck: Check, bad: list, variants: list, twins: dict, rnd, rhs_eval
                     t4[side][idx[0]]["e"] = "rej"
                 muts.append(t4)
                 break
-        _, rj = validate_traces(TRACE, CFG / "HamTwinTrace.cfg", muts, timeout=600)
+        _, rj = validate_traces(TRACE, CFG / "HamTwinTrace.Strict.cfg", muts, timeout=600)
         if len(rj) != len(muts):
             raise MachineryError(f"binding self-test: only {len(rj)} of {len(muts)} corrupted twin traces were rejected")
-        ck.part("selftest", corrupted_twin_traces_rejected=len(muts))
+        # the loose specification must forgive a changed value (t1) and must not forgive a missing event (t2)
+        _, lj = validate_traces(TRACE, CFG / "HamTwinTrace.Loose.cfg", muts[:2], timeout=600)
+        if 0 in lj or 1 not in lj:
+            raise MachineryError(f"binding self-test: loose twin validation misclassifies corrupted traces ({sorted(lj)})")
+        ck.part("selftest", corrupted_twin_traces_rejected=len(muts), loose_forgives_value_only=True)
 
 
 def sym_case(ck, bad, v, cfg, systems, data):
@@ -896,8 +911,9 @@ def main(tier=None, replay=None):
     ck.cov["exhaustive"] = True
     ck.assumptions += [
         "the generic twin is a compiled closure over tuples of the Jacobian blocks calling the library's _hamiltonian_rhs: "
-        "both paths execute the same floating operations, so bit-equality is expected; differences up to 1e-11 relative "
-        "are recorded as rounding-level agreement, larger ones are violations",
+        "both paths execute the same floating operations, so bit-equality is expected; a pair that is not bit-identical "
+        "but takes the same discrete decisions (HamTwinTrace, Strict = FALSE) and agrees to 5e-9 relative on the outputs "
+        "is recorded as rounding-level agreement, anything else is a violation",
         "traced runs execute the kernels' py_func (source) with compiled helpers (numpy.linalg.norm replaced by numba's); "
         "they are paired with compiled runs whose outputs must be bit-identical (differences are listed in notes)",
         "adaptive drivers with decreasing grids are outside the variant space (property C10)",
